@@ -43,7 +43,7 @@ impl Known {
 pub fn load_known(path: &str) -> Vec<Known> {
     match std::fs::read_to_string(path) {
         Ok(s) => serde_json::from_str(&s).unwrap_or_else(|e| {
-            eprintln!("MACHINERY-ERROR cannot parse {}: {}", path, e);
+            ecrate::outln!("MACHINERY-ERROR cannot parse {}: {}", path, e);
             std::process::exit(2);
         }),
         Err(_) => Vec::new(),
@@ -241,7 +241,7 @@ pub fn run_prop(instances: &[Inst], o: &PropOpts) -> PropOutcome {
                     return (idx, Merged::default());
                 }
                 let m = shard::run_sharded(&name, &cfg, &so);
-                eprintln!(
+                ecrate::outln!(
                     "  {:34} {:5} (p{},s{},f{}) execs={:9} nodes={:9} steps={:11} outcomes={:4} complete={} {:.1}s{}",
                     name,
                     build,
@@ -282,8 +282,8 @@ pub fn run_prop(instances: &[Inst], o: &PropOpts) -> PropOutcome {
                 } else {
                     violations += 1;
                     let path = write_replay(&o.replay_dir, plan.build, v);
-                    println!("VIOLATION property={} replay={}", o.prop, path);
-                    println!("  instance={} build={} oracle={} {}", v.instance, plan.build, v.oracle, v.message);
+                    crate::outln!("VIOLATION property={} replay={}", o.prop, path);
+                    crate::outln!("  instance={} build={} oracle={} {}", v.instance, plan.build, v.oracle, v.message);
                 }
             }
             for (i, v) in &m.known_hits {
@@ -369,14 +369,14 @@ pub fn run_prop(instances: &[Inst], o: &PropOpts) -> PropOutcome {
                         deterministic: true,
                     };
                     let path = write_replay(&o.replay_dir, m4.2, &v);
-                    println!("VIOLATION property=C08 replay={}", path);
-                    println!("  instance={} oracle=steps-growth {}", v.instance, v.message);
+                    crate::outln!("VIOLATION property=C08 replay={}", path);
+                    crate::outln!("  instance={} oracle=steps-growth {}", v.instance, v.message);
                 }
             }
         }
     }
     for l in known_lines.values() {
-        println!("{}", l);
+        crate::outln!("{}", l);
     }
     let ev = json!({
         "engine": {
